@@ -22,6 +22,7 @@ struct Child {
     std::vector<CStep> steps;
     // run-time
     thread* th = nullptr; TPControl* ctl = nullptr; join_handle* jh = nullptr;
+    volatile int block_seq = 0;
     volatile int runs = 0, active = 0, done = 0, created = 0, join_started = 0, joined = 0, create_failed = 0;
     void* stack_ptr = nullptr; size_t stack_size = 0; volatile int stack_freed = 0;
     int home_vcpu = 0;
@@ -83,20 +84,26 @@ void child_body(Child& c) {
       if (c.runs++) HX_VIOL("ran-twice", "entry function of child %d started %d times", c.id, c.runs);
       if (++c.active != 1) HX_VIOL("two-vcpus", "child %d is executing on two vCPUs at once", c.id);
       sim::ev(0xC81D, c.id, 1); sim::note("child %d starts on vcpu-task %d", c.id, sim::task_id()); }
-    auto block = [&](std::function<void()> f) {
-        { sim::NoSched ns; c.active--; }
+    auto block = [&](std::function<void()> f, const char* what) {
+        int my_seq;
+        { sim::NoSched ns; c.active--; my_seq = ++c.block_seq; }
         f();
-        { sim::NoSched ns; if (++c.active != 1) HX_VIOL("two-vcpus", "child %d resumed while another vCPU is still executing it (active=%d)", c.id, c.active); }
+        { sim::NoSched ns;
+          // a thread resumed from a stale saved context comes back from a suspension point it has already left
+          if (c.block_seq != my_seq || c.done)
+              HX_VIOL("duplicate-resume", "child %d (stealable=%d) returned from its suspension #%d (%s) again although it had already moved on to #%d%s: the thread was resumed from a stale context, i.e. executed twice",
+                      c.id, (int)c.stealable, my_seq, what, c.block_seq, c.done ? " and finished" : "");
+          if (++c.active != 1) HX_VIOL("two-vcpus", "child %d resumed while another vCPU is still executing it (active=%d)", c.id, c.active); }
     };
     bool exit_now = false;
     for (auto& s : c.steps) {
         if (hx::dropped(s.child >= 0 ? 100000 + s.child : -1)) {}
         switch (s.k) {
-        case C_YIELD: block([] { thread_yield(); }); break;
-        case C_SLEEP: block([&] { thread_usleep(s.us); }); break;
+        case C_YIELD: block([] { thread_yield(); }, "thread_yield"); break;
+        case C_SLEEP: block([&] { thread_usleep(s.us); }, "thread_usleep"); break;
         case C_MIGRATE_SELF:
             if (c.how >= 2) break;     // pooled threads stay on their vCPU
-            block([&] { if (W.vcpus[s.vcpu]) thread_migrate(CURRENT, W.vcpus[s.vcpu]); });
+            block([&] { if (W.vcpus[s.vcpu]) thread_migrate(CURRENT, W.vcpus[s.vcpu]); }, "thread_migrate(self)");
             { sim::NoSched ns; sim::probe("self_migrated"); }
             break;
         case C_SPAWN: {
@@ -121,6 +128,7 @@ void* child_entry(void* arg) { Child& c = *(Child*)arg; child_body(c); return (v
 void gen_plan() {
     W.nvcpu = 1 + sim::rnd(4);
     int ws = sim::rnd(3);     // 0 none, 1 all active+passive, 2 mixed
+    if (hx::param("no_ws", 0)) ws = 0;
     for (int v = 0; v < W.nvcpu; v++)
         W.vcpu_flags.push_back(ws == 0 ? 0 : ws == 1 ? (VCPU_ENABLE_ACTIVE_WORK_STEALING | VCPU_ENABLE_PASSIVE_WORK_STEALING) : sim::rnd(4));
     int nparents = 1 + sim::rnd(4);
